@@ -418,6 +418,8 @@ def replay(ob, res):
             return {"reproduced": True, "call": "HashClient([spelling]).clients", "input": obs["failing"]}
         return {"reproduced": False, "searched": obs}
     obs = rp.run_real(SNIPPET, {}, timeout=300)
-    if obs.get("failing"):
+    from pyvc.replay import failing_of
+    if failing_of(obs):
+        obs = dict(obs, failing=failing_of(obs))
         return {"reproduced": True, "call": "RendezvousHash(...).get_node(key) vs the published rule", "input": obs["failing"], "cases_tried": obs.get("cases")}
     return {"reproduced": False, "searched": obs}
